@@ -13,6 +13,7 @@
 //!           message, and the time stays inside `BUDGET_BASE_MS + n^2 * BUDGET_NS_PER_BYTE2` (n = bytes loaded).
 //!
 //! request : C08.lex \t <hex bytes> \t <raw token lengths, `e` suffix = Endline>   (model diff: TokenStream bookkeeping)
+//! request : C08.defscan | C08.textscan \t <definition tokens> \t <condition / text tokens> \t <scenario hex>   (model diff: macro scan)
 //! request : C08.cond \t <directive letters, `(`..`)` = an included file>           (model diff: ConditionChain)
 //!
 //! Process structure: the supervisor (this process) writes request batches to files and spawns worker
@@ -1147,7 +1148,7 @@ fn defscan_case(spec_hex: &str, out: &mut Out, hist: &mut Hist) {
                 header.push_str(&format!(" {}\n", d));
             }
         }
-        "m" => {
+        "m" | "t" => {
             for d in &defs {
                 main.push_str("#define");
                 def_frags.push((0, main.len(), format!(" {}", d)));
@@ -1176,9 +1177,19 @@ fn defscan_case(spec_hex: &str, out: &mut Out, hist: &mut Hist) {
             }
         }
     }
-    main.push_str("#if");
-    let cond_frag = (0usize, main.len(), format!(" {}", cond));
-    main.push_str(&format!(" {}\n#endif\n", cond));
+    // placement `t`: the "condition" is ordinary text after the definitions (it may run over several lines: fix f08088c lets
+    // the invocation of a function-like macro continue on the next line); it is scanned without `apply_defined`
+    let text_mode = placement == "t";
+    let cond_frag = if text_mode {
+        let frag = (0usize, main.len(), format!("{}\n", cond));
+        main.push_str(&format!("{}\n", cond));
+        frag
+    } else {
+        main.push_str("#if");
+        let frag = (0usize, main.len(), format!(" {}", cond));
+        main.push_str(&format!(" {}\n#endif\n", cond));
+        frag
+    };
     // ---- base locations in registration order: entry file, API defines, header
     let mut bases: Vec<u32> = vec![0];
     let mut next = main.len() as u32 + 1;
@@ -1266,7 +1277,12 @@ fn defscan_case(spec_hex: &str, out: &mut Out, hist: &mut Hist) {
     };
     hist.add(&format!("defscan={}", obs.split(|c| c == ':' || c == ' ').take(2).collect::<Vec<_>>().join(":")));
     hist.add(&format!("defscan-placement={}", placement));
-    let req = format!("C08.defscan\t{}\t{}", if def_toks.is_empty() { "-".to_string() } else { def_toks.join("|") }, cond_toks);
+    let req = format!(
+        "{}\t{}\t{}",
+        if text_mode { "C08.textscan" } else { "C08.defscan" },
+        if def_toks.is_empty() { "-".to_string() } else { def_toks.join("|") },
+        cond_toks
+    );
     // the spec rides along as a comment field of the observation? no: requests must be replayable, so it is the
     // *tokens* that are the request; replay re-runs the model only.  The scenario text is kept in the oracle detail.
     let oracle = if oracle == "ok" { oracle } else { format!("{} scenario={}", oracle, spec_hex) };
@@ -1319,7 +1335,7 @@ pub fn run(args: &Args, out: &mut Out) {
                 }
             } else if let Some(rest) = line.strip_prefix("C08.cond\t") {
                 cond_case(rest, out, &mut hist);
-            } else if let Some(rest) = line.strip_prefix("C08.defscan\t") {
+            } else if let Some(rest) = line.strip_prefix("C08.defscan\t").or_else(|| line.strip_prefix("C08.textscan\t")) {
                 if let Some(spec) = rest.split('\t').nth(2) {
                     defscan_case(spec, out, &mut hist);
                 }
